@@ -43,8 +43,13 @@ def run_complex_cases(cases, res, stratum):
                 y = fx.Fxp(val, s, nw, nf, **kw); before = np.asarray(y.get_val()).reshape(-1).tolist()
                 y[0] = 0.0; after = np.asarray(y.get_val()).reshape(-1).tolist()
                 idxw = (before[1:], after[1:], complex(after[0]), y.dtype)
+            # ... and a complex value written by index into an array holding real values: both components are stored ("indexed assignment" is a route)
+            idxc = None
+            if c['carrier'] != 'pycomplex' or True:
+                yr = fx.Fxp([0.0, 0.0], s, nw, nf, **kw); yr[1] = complex(zs[0]); ar = np.asarray(yr.get_val()).reshape(-1).tolist()
+                idxc = (complex(ar[1]), complex(ar[0]), lib.status3(yr)[2])
             v = np.asarray(x.val).reshape(-1)
-            obs = {'idxw': idxw, 're': [Fraction(float(t.real)) for t in v], 'im': [Fraction(float(t.imag)) for t in v], 'st': lib.status3(x),
+            obs = {'idxw': idxw, 'idxc': idxc, 're': [Fraction(float(t.real)) for t in v], 'im': [Fraction(float(t.imag)) for t in v], 'st': lib.status3(x),
                    'get': [(Fraction(float(t.real)), Fraction(float(t.imag))) for t in np.asarray(x.get_val()).reshape(-1)], 'dtype': x.dtype,
                    'parts': ([Fraction(float(t)) for t in np.asarray(x.real).reshape(-1)], [Fraction(float(t)) for t in np.asarray(x.imag).reshape(-1)])}
         except Exception as e:
@@ -72,6 +77,10 @@ def run_complex_cases(cases, res, stratum):
             res.fail(c, 'C01: complex value read back (get_val / .real / .imag) is not code*2^-n_frac per component', expected=[(str(a), str(b)) for a, b in back], got=[(str(a), str(b)) for a, b in obs['get']]); continue
         if obs['idxw'] is not None and (obs['idxw'][0] != obs['idxw'][1] or obs['idxw'][2] != 0j or not obs['idxw'][3].endswith('-complex')):
             res.fail(c, 'C01: writing a real value by index into a complex array changed the values read back from the other elements (imaginary parts dropped)', expected=[str(t) for t in obs['idxw'][0]], got=[str(t) for t in obs['idxw'][1]]); continue
+        if obs['idxc'] is not None:
+            w0 = complex(float(back[0][0]), float(back[0][1]))
+            if obs['idxc'][0] != w0 or obs['idxc'][1] != 0j:
+                res.fail(c, 'C01: a complex value written by index into an array of real values is not stored with both components (or a neighbour changed)', expected=str(w0), got=str(obs['idxc'][:2])); continue
         if not obs['dtype'].endswith('-complex'):
             res.fail(c, 'C01: an object holding complex values does not report a complex dtype', expected='...-complex', got=obs['dtype']); continue
         kind, rd = outcome(outs[3 * i + 2])
@@ -80,6 +89,35 @@ def run_complex_cases(cases, res, stratum):
         mre, mim = rd.lst(rd.z), rd.lst(rd.z); mst = (rd.b(), rd.b(), rd.b())
         if (mre, mim, mst) != (wre, wim, want_st):
             res.fail(c, 'model set_val_complex disagrees with the implementation although the Spec agrees', expected=(mre, mim, mst), got=(wre, wim, want_st)); res.failures[-1]['no_input'] = True
+
+def run_longdouble(cases, res):
+    """np.longdouble carriers (64-bit significands on x86-64): a value a double cannot hold, e.g. 2.5 + 2^-60, as a scalar, a 0-d array,
+    a 1-element array and a list must be quantized exactly (the carrier's precision is not cut to a double first)"""
+    from lib import Reader
+    fx = lib.impl(); import numpy as np
+    if np.finfo(np.longdouble).nmant < 63: return           # (no extended precision on this platform)
+    pend = []; reqs = []
+    for c in cases:
+        v = Fraction(c['v']); d = Fraction(c['d']); ld = np.longdouble(float(v)) + np.longdouble(float(d))
+        num, den = ld.as_integer_ratio()
+        if Fraction(int(num), int(den)) != v + d: continue      # (the sum is not exact in 64 bits)
+        val = {'scalar': ld, 'arr0d': np.array(ld), 'arr1': np.array([ld]), 'list': [ld]}[c['carrier']]
+        try:
+            if c['route'] == 'ctor': x = fx.Fxp(val, c['s'], c['nw'], c['nf'], rounding=c['r'], overflow=c['o'])
+            else:
+                x = fx.Fxp(None, c['s'], c['nw'], c['nf'], rounding=c['r'], overflow=c['o'])
+                (x if c['route'] == 'call' else x.set_val)(val)
+            got = (lib.codes_of(x)[0], lib.status3(x))
+        except Exception as e:
+            res.fail(c, 'C01: storing a longdouble value raised %s' % lib.exc_name(e), got=str(e)[:200]); continue
+        pend.append((c, got)); reqs.append([4] + e_fmt(c['s'], c['nw'], c['nf']) + [RMODES.index(c['r']), OMODES.index(c['o'])] + e_list([v + d], lib.e_dy))
+    for (c, got), o in zip(pend, model_call(reqs)):
+        rd = Reader(o); want = rd.lst(rd.z)[0]; wf = (rd.b(), rd.b(), rd.b())
+        res.count('L:longdouble-carriers', key=repr(c), nontrivial=True)
+        if got[0] != want:
+            res.fail(c, 'C01: a longdouble value is not stored as OVERFLOW(ROUND(v*2^n_frac)) (the carrier was cut to a double first?)', expected=want, got=got[0]); continue
+        if got[1] != wf:
+            res.fail(c, 'C01: status flags after storing a longdouble value are not those of its exact quantization', expected=wf, got=got[1])
 
 def exhaustive_formats(tier):
     nwmax = 3 if tier == 'quick' else 6
@@ -183,6 +221,17 @@ def shard(shard, nshards, rng, tier, extra):
         cases.append({'s': s, 'nw': nw, 'nf': nf, 'r': rng.choice(RMODES), 'o': rng.choice(OMODES), 'carrier': rng.choice(['pyfloat', 'arr:float64', 'list']) if len(vals) == 1 else rng.choice(['arr:float64', 'list']),
                       'route': rng.choice(S.ROUTES[:3]), 'vals': vals})
     check_cases(cases, res, 'T:tiny-floats-negative-n_frac', huge=False, keep_array=True)
+    # ---- (L) longdouble carriers: a double at or next to a rounding boundary, plus or minus a few units of its 60th..63rd bit
+    cases = []
+    for _ in range((300 if tier == 'quick' else 6000) // nshards):
+        s, nw, nf = S.random_format(rng)
+        v = S.boundary_values(rng, s, nw, nf, 1)[0]
+        if v == 0 or not S.is_double(v): continue
+        e = math.floor(math.log2(abs(float(v))))
+        d = Fraction(rng.choice([1, -1, 3, -3]), 1) * Fraction(2) ** (e - rng.choice([60, 61, 62]))
+        cases.append({'s': s, 'nw': nw, 'nf': nf, 'r': rng.choice(RMODES), 'o': rng.choice(OMODES), 'v': str(Fraction(v)), 'd': str(d),
+                      'carrier': rng.choice(['scalar', 'scalar', 'arr0d', 'arr1', 'list']), 'route': rng.choice(['ctor', 'call', 'set_val'])})
+    run_longdouble(cases, res)
     # ---- (X) complex inputs: each component on its own
     cases = []
     for _ in range((800 if tier == 'quick' else 20000) // nshards):
@@ -222,6 +271,8 @@ def classify(fl):
     return None
 
 def replay(payload):
+    if 'd' in payload.get('case', {}) and 'v' in payload['case']:
+        res = Result(); run_longdouble([payload['case']], res); return {'holds': not res.failures, 'failures': res.failures}
     c = payload['case']
     res = Result()
     if 're' in c:
